@@ -12,6 +12,7 @@ import SynapModel.Drv.Layer
 import SynapModel.Drv.Conv
 import SynapModel.Drv.Stab
 import SynapModel.Drv.ModuleFwd
+import SynapModel.Drv.Formulas
 /-!
 # `synapdrv` : line-protocol interpreter of the model
 
@@ -46,6 +47,7 @@ def step (st : State) (line : String) : State × String :=
   | "conv" :: rest => (st, Drv.Conv.run rest)
   | "stab" :: rest => (st, Drv.Stab.run rest)
   | "mf" :: rest => let (w, o) := Drv.ModuleFwd.run st.mf rest; ({ st with mf := w }, o)
+  | "gf" :: rest => (st, Drv.Formulas.run rest)
   | "reset" :: _ => ({}, "ok")
   | _ => (st, "bad-op")
 
